@@ -482,12 +482,15 @@ func NewWorld(meta Meta, seed int64) (*World, error) {
 			if c1 := w.clientAddr["c1"]; c1 != nil {
 				a = &net.UDPAddr{IP: c1.IP, Port: c1.Port}
 			}
-			if c != "s1" && c != "sx" {
+			if c != "s1" && c != "sx" && c != "sy" {
 				a = &net.UDPAddr{IP: net.IPv4(10, 0, 0, 12).To4(), Port: 40002}
 			}
 			w.listenAddr[c] = srv4
 			if c == "sx" { // the IP and port of s1 once more, connected to the server's second stream listener
 				w.listenAddr[c] = &net.UDPAddr{IP: srv4.IP, Port: srv4.Port + 1}
+			}
+			if c == "sy" { // the IP and port of s1 once more, connected to another local IP of the SAME (wildcard) listener
+				w.listenAddr[c] = &net.UDPAddr{IP: net.IPv4(10, 0, 0, 2).To4(), Port: srv4.Port}
 			}
 			w.clientAddr[c] = a
 
@@ -637,6 +640,9 @@ func NewWorld(meta Meta, seed int64) (*World, error) {
 			w.lisS = lis
 			cfg.ListenerConfigs = []turn.ListenerConfig{{Listener: lis, RelayAddressGenerator: w.gen, PermissionHandler: permHandler}}
 		}
+	}
+	if la := w.listenAddr["sy"]; la != nil && w.lisS != nil {
+		w.Net.AliasTCP(w.lisS, &net.TCPAddr{IP: la.IP, Port: la.Port})
 	}
 	if la := w.listenAddr["sx"]; la != nil && w.lisS != nil {
 		lis2, err := w.Net.ListenTCP(&net.TCPAddr{IP: la.IP, Port: la.Port})
@@ -788,9 +794,11 @@ func (w *World) Close() {
 // clientOf names the client of a 5-tuple: s1 and sx share their address and differ in the listener they reached.
 func (w *World) clientOf(src, dst net.Addr) string {
 	c := w.clientName(src)
-	if d, ok := dst.(*net.TCPAddr); ok && (c == "s1" || c == "sx") {
-		if la := w.listenAddr["sx"]; la != nil && la.Port == d.Port {
-			return "sx"
+	if d, ok := dst.(*net.TCPAddr); ok && (c == "s1" || c == "sx" || c == "sy") {
+		for _, x := range []string{"sx", "sy"} {
+			if la := w.listenAddr[x]; la != nil && la.Port == d.Port && la.IP.Equal(d.IP) {
+				return x
+			}
 		}
 
 		return "s1"
@@ -812,12 +820,14 @@ func (w *World) clientName(a net.Addr) string {
 		return "?" + a.String()
 	}
 	for c, ca := range w.clientAddr {
-		if ca.IP.Equal(ip) && ca.Port == port && w.isStream(c) == stream && c != "sx" {
+		if ca.IP.Equal(ip) && ca.Port == port && w.isStream(c) == stream && c != "sx" && c != "sy" {
 			return c
 		}
 	}
-	if ca := w.clientAddr["sx"]; ca != nil && stream && ca.IP.Equal(ip) && ca.Port == port {
-		return "sx"
+	for _, x := range []string{"sx", "sy"} {
+		if ca := w.clientAddr[x]; ca != nil && stream && ca.IP.Equal(ip) && ca.Port == port {
+			return x
+		}
 	}
 
 	return "?" + a.String()
@@ -1625,13 +1635,10 @@ func (w *World) Project() Proj {
 			}
 			var al *allocation.Allocation
 			if mi >= 2 { // a stream listener's manager (the server keys these 5-tuples with allocation.UDP as well)
-				la = w.listen4.addr
 				if !w.isStream(c) || (mi == 3) != (c == "sx") {
 					continue
 				}
-				if mi == 3 {
-					la = w.listenAddr["sx"]
-				}
+				la = w.listenAddr[c]
 				al = m.GetAllocation(&allocation.FiveTuple{SrcAddr: &net.TCPAddr{IP: ca.IP, Port: ca.Port},
 					DstAddr: &net.TCPAddr{IP: la.IP, Port: la.Port}, Protocol: allocation.UDP})
 			} else {
